@@ -113,9 +113,10 @@ def classify_crash(rc, err, out):
     m = re.search(r"([^/\s:]+\.[ch]):(\d+):\d+: runtime error: (.*)", err)
     if m:
         return ("SANITIZER", "ubsan@%s:%s" % (m.group(1), m.group(2)), m.group(3)[:300])
-    m = re.search(r"(\S+\.[ch]):(\d+): (\S+): Assertion `(.*)' failed", err)
+    m = re.search(r"(\S+\.[ch]):(\d+): (.*?): Assertion `(.*)' failed", err)
     if m:
-        return ("ABORT", "assert@%s:%s" % (os.path.basename(m.group(1)), m.group(3)), m.group(4)[:300])
+        fn = re.findall(r"(\w+)\s*\(", m.group(3))
+        return ("ABORT", "assert@%s:%s" % (os.path.basename(m.group(1)), fn[-1] if fn else "?"), m.group(4)[:300])
     if "LeakSanitizer" in err:
         return ("SANITIZER", "leak", first_lines(err, 12))
     return ("CRASH", "exit%d" % rc, (err[-600:] or out[-300:]))
